@@ -2,6 +2,7 @@ package main
 
 import (
 	"fmt"
+	"go/ast"
 	"go/token"
 	"go/types"
 	"os"
@@ -1209,16 +1210,10 @@ func (x *Exec) exitAsserts(fr *Frame, from, to *ssa.BasicBlock, st *State, loopI
 			continue
 		}
 		body := loopBlocks(h)
-		if !body[from] || body[to] {
+		if body[to] {
 			continue
 		}
-		follows := false
-		for _, s := range h.Succs {
-			if s == to {
-				follows = true
-			}
-		}
-		if !follows {
+		if !leavesLoopNormally(fr.fn, h, body, from, to) {
 			continue
 		}
 		env := x.invEnv(fr, st)
@@ -1226,6 +1221,94 @@ func (x *Exec) exitAsserts(fr *Frame, from, to *ssa.BasicBlock, st *State, loopI
 			x.addObl(st, "loop-exit", fmt.Sprintf("%s/loop-exit:loop%d/%s", shortFn(x.top), idx, c.Label), x.evalBool(env, c.Expr), x.p.pos(blockPos(to)), c.Text)
 		}
 	}
+}
+
+// leavesLoopNormally: block `to` (outside the loop) is code that follows the loop statement in the
+// source - the loop ran out, its condition failed or a break was taken - and not a return or
+// panic written inside the loop. Decided on the syntax: the loop statement is the smallest
+// for/range statement that contains every instruction of the natural loop; `to` follows it when
+// its first positioned instruction lies at or behind the statement's end.
+func leavesLoopNormally(fn *ssa.Function, h *ssa.BasicBlock, body map[*ssa.BasicBlock]bool, from, to *ssa.BasicBlock) bool {
+	syn := fn.Syntax()
+	if syn == nil {
+		// no syntax (synthetic): fall back to "successor of the header"
+		if !body[from] {
+			return false
+		}
+		for _, s := range h.Succs {
+			if s == to {
+				return true
+			}
+		}
+		return false
+	}
+	lo, hi := token.NoPos, token.NoPos
+	for b := range body {
+		for _, ins := range b.Instrs {
+			if p := ins.Pos(); p.IsValid() {
+				if !lo.IsValid() || p < lo {
+					lo = p
+				}
+				if p > hi {
+					hi = p
+				}
+			}
+		}
+	}
+	if !lo.IsValid() {
+		return false
+	}
+	var best ast.Node
+	ast.Inspect(syn, func(n ast.Node) bool {
+		if n == nil {
+			return false
+		}
+		if _, isLit := n.(*ast.FuncLit); isLit && n != syn {
+			return false // another function
+		}
+		switch n.(type) {
+		case *ast.ForStmt, *ast.RangeStmt:
+			if n.Pos() <= lo && hi < n.End() {
+				if best == nil || (n.End()-n.Pos()) < (best.End()-best.Pos()) {
+					best = n
+				}
+			}
+		}
+		return true
+	})
+	if best == nil {
+		return false
+	}
+	// the edge starts in the loop: in its natural body, or in a block written inside the loop
+	// statement that cannot come back to the head (statements in front of a break)
+	if !body[from] {
+		inside := false
+		for _, ins := range from.Instrs {
+			if p := ins.Pos(); p.IsValid() {
+				inside = best.Pos() <= p && p < best.End()
+				break
+			}
+		}
+		if !inside {
+			return false
+		}
+	}
+	// first positioned instruction reached from `to` without branching
+	seen := map[*ssa.BasicBlock]bool{}
+	for b := to; b != nil && !seen[b]; {
+		seen[b] = true
+		for _, ins := range b.Instrs {
+			if p := ins.Pos(); p.IsValid() {
+				return p >= best.End()
+			}
+		}
+		if len(b.Succs) != 1 {
+			// an empty block that ends the function (implicit return at the closing brace) follows the loop
+			return len(b.Succs) == 0
+		}
+		b = b.Succs[0]
+	}
+	return false
 }
 
 var debugExec = os.Getenv("GOVC_DEBUG") != ""
